@@ -261,6 +261,31 @@ def check_props(ctx, propfile=None):
     return True
 
 
+
+def coqchk(ctx, timeout=2400):
+    """thorough tier: re-check props/Prop_<id>.vo and everything it depends on
+    with the independent checker and record the axiom summary it prints."""
+    rc, out, err = sh(['timeout', str(timeout), 'coqchk', '-o', '-silent', '-Q', '.', 'Sky',
+                       f'Sky.props.Prop_{ctx.prop}'], cwd=COQ, timeout=timeout + 60)
+    txt = out + err
+    summ = txt[txt.find('CONTEXT SUMMARY'):] if 'CONTEXT SUMMARY' in txt else txt[-1500:]
+    ctx.coqchk = {'rc': rc, 'summary': summ.strip()[:4000]}
+    if rc != 0:
+        ctx.broken.append({'kind': 'coqchk', 'error': txt[-1500:]})
+        return False
+    m = re.search(r'\* Axioms:(.*?)\n\s*\n\* Constants', summ, flags=re.S)
+    axs = [a.strip() for a in (m.group(1) if m else '').splitlines() if a.strip() and a.strip() != '<none>']
+    ctx.coqchk['axioms'] = axs
+    foreign = [a for a in axs if not any(a.endswith(s.split('.')[-1]) for s in STD_AXIOMS)
+               and not a.startswith('Coq.') and not a.startswith('Coquelicot.') and not a.startswith('mathcomp.')]
+    for sect in ('type-in-type', 'unsafe (co)fixpoints', 'positivity is assumed'):
+        mm = re.search(re.escape(sect) + r':(.*?)(?:\n\s*\n|\Z)', summ, flags=re.S)
+        if mm and mm.group(1).strip() not in ('<none>', ''):
+            ctx.broken.append({'kind': 'coqchk', 'error': f'{sect}: {mm.group(1).strip()[:300]}'})
+    if foreign:
+        ctx.broken.append({'kind': 'coqchk', 'error': f'axioms outside the standard library / Coquelicot: {foreign}'})
+    return True
+
 # -------------------------------------------------------------------- Coq eval
 
 _tok = re.compile(r'\s*(\[|\]|;|\(|\)|,|-?\d+|[A-Za-z_][A-Za-z0-9_\']*|%[a-zA-Z]+)')
@@ -465,6 +490,7 @@ def finish(ctx, level='proof', rule='', trusted=None, checker_cmd=None, extra=No
             'errors': (ctx.translator or {}).get('errors', [])},
         'known_findings_hit': [h['id'] for h in ctx.known_hits],
         'notes': ctx.notes,
+        'coqchk': getattr(ctx, 'coqchk', None),
     }
     if ctx.discharged < 1 or ctx.obligations < 1:
         # not a proof-level record any more: keep the schema's fallback keys only
